@@ -1645,3 +1645,101 @@ func TestVerifC16Stress(t *testing.T) {
 		out.emit(obs)
 	}
 }
+
+// ---------------------------------------------------------------- accessors on another goroutine
+
+// c16AccessPoll polls the state accessors of conn from its own goroutine (a named function: the
+// driver recognises the race reports that involve it by this frame).
+func c16AccessPoll(conn *Conn, stop <-chan struct{}, n *atomic.Int64) {
+	for {
+		select {
+		case <-stop:
+			return
+		default:
+		}
+		_, _ = conn.ConnectionState()
+		_, _ = conn.SelectedSRTPProtectionProfile()
+		_ = conn.RemoteAddr()
+		n.Add(1)
+		runtime.Gosched()
+	}
+}
+
+type c16AccessRaceObs struct {
+	Kind    string `json:"kind"`
+	Variant string `json:"variant"`
+	Round   int    `json:"round"`
+	HsX     string `json:"hs_c"`
+	HsP     string `json:"hs_s"`
+	Polls   int64  `json:"polls"`
+}
+
+// c16AccessRaceRun: one real-time handshake (no bubble: the pollers never block) over the lab
+// network with an eager pump, while one goroutine per endpoint polls the accessors.  Only the
+// race detector judges this run (thorough tier, -race).
+func c16AccessRaceRun(t *testing.T, variant string, round int) c16AccessRaceObs {
+	t.Helper()
+	obs := c16AccessRaceObs{Kind: "accrace", Variant: variant, Round: round}
+	l := c16NewLab(t, variant)
+	C, S := l.lab.Client, l.lab.Server
+	stop := make(chan struct{})
+	pumpDone := make(chan struct{})
+	go func() {
+		defer close(pumpDone)
+		next := 0
+		for {
+			for _, d := range l.lab.Net.since(next) {
+				next = d.Idx + 1
+				l.lab.Net.deliver(d.To, d.From, d.Data)
+			}
+			select {
+			case <-l.lab.Net.notify:
+			case <-stop:
+				return
+			}
+		}
+	}()
+	var polls atomic.Int64
+	var wg sync.WaitGroup
+	pstop := make(chan struct{})
+	for _, c := range []*Conn{C.Conn, S.Conn} {
+		wg.Add(1)
+		go func() {
+			defer wg.Done()
+			c16AccessPoll(c, pstop, &polls)
+		}()
+	}
+	ctx, cancel := context.WithTimeout(context.Background(), 15*time.Second)
+	hc := c16Go(func() error { return C.Conn.HandshakeContext(ctx) })
+	hs := c16Go(func() error { return S.Conn.HandshakeContext(ctx) })
+	<-hc.done
+	<-hs.done
+	cancel()
+	obs.HsX, obs.HsP = hc.class(), hs.class()
+	close(pstop)
+	wg.Wait()
+	obs.Polls = polls.Load()
+	_ = C.Conn.Close()
+	_ = S.Conn.Close()
+	close(stop)
+	<-pumpDone
+	_ = C.EP.Close()
+	_ = S.EP.Close()
+
+	return obs
+}
+
+// TestVerifC16AccessRace is meant for -race (thorough tier): VERIF_C16_ROUNDS handshakes per variant.
+func TestVerifC16AccessRace(t *testing.T) {
+	out := newVOut(t)
+	rounds := 3
+	if v := os.Getenv("VERIF_C16_ROUNDS"); v != "" {
+		fmt.Sscanf(v, "%d", &rounds)
+	}
+	for _, v := range c16Variants {
+		for r := 0; r < rounds; r++ {
+			out.emit(map[string]any{"kind": "begin", "accrace": r, "variant": v})
+			out.emit(c16AccessRaceRun(t, v, r))
+		}
+	}
+}
